@@ -6,8 +6,8 @@
 //!   op:   0 map, 1 zip, 2 fold, 3 generate, 4 GenericArray::clone, 5 Default,
 //!         6 GenericArrayIter::clone, 7 iterator fold, 8 iterator rfold
 //!   form: map/fold: 0 owned, 1 &, 2 &mut, 3 Box; zip: 3*self + rhs over {0 owned, 1 &, 2 &mut}, 9 Box x Box;
-//!         generate: 0 stack, 1 boxed, 2 through &S, 3 through &mut S
-//!   elem: 0 drop-tracked `Tr`, 1 plain u32 (selects the no-drop code paths)
+//!         generate: 0 stack, 1 boxed, 2 through &S, 3 through &mut S; Default: 0 stack, 1 default_boxed
+//!   elem: 0 drop-tracked `Tr`, 1 plain u32 (selects the no-drop code paths), .., 11 `Sd` (plain, stateful Default)
 //!   pan:  call index at which the caller's code panics, -1 = never
 //!   f, b: for the iterator ops: elements already taken from the front / back
 //! OBS: outcome (0 ok, 2 panicked); result (k, ids); calls (count, then the arguments of each call);
@@ -292,6 +292,17 @@ macro_rules! plain_elem {
     };
 }
 plain_elem!(P3, |id: i64| P3 { a: id as u32, b: !(id as u32), c: 0xC0FFEE }, |p: &P3| if p.b == !p.a && p.c == 0xC0FFEE { p.a as i64 } else { -1 });
+/// No drop glue, not zero-sized, and a STATEFUL `Default` (serial numbers) whose FIRST value is the all-zero bit
+/// pattern: `default_boxed` / `Default` must still call it once per element, in order (identity = value + 1000).
+#[derive(Debug, Clone, Copy, PartialEq)]
+pub struct Sd(pub u32);
+impl Default for Sd {
+    fn default() -> Sd {
+        track::default_call();
+        Sd((<u32 as Elem>::fresh() as i64 - 1000) as u32)
+    }
+}
+plain_elem!(Sd, |id: i64| Sd((id - 1000) as u32), |s: &Sd| s.0 as i64 + 1000);
 plain_elem!(H2, |id: i64| H2(id as u16), |h: &H2| h.0 as i64);
 
 #[derive(Default)]
@@ -649,7 +660,10 @@ where
         5 => {
             start = track::log_len();
             track::arm_clone(if pan >= 0 { Some(pan as u64) } else { None });
-            let r = finish_ga(catch(|| GenericArray::<E, N>::default()));
+            let r = match form {
+                1 => finish_box(catch(|| GenericArray::<E, N>::default_boxed())),
+                _ => finish_ga(catch(|| GenericArray::<E, N>::default())),
+            };
             let calls = track::clone_calls();
             track::arm_clone(None);
             for k in 0..calls {
